@@ -55,6 +55,8 @@ class UnionDomain(Domain):
     def bounding_box(self, params=Points.empty(), device="cpu"):
         bounds_a = self.domain_a.bounding_box(params, device=device)
         bounds_b = self.domain_b.bounding_box(params, device=device)
+        bounds_a = self._bounds_over_all_params(bounds_a)
+        bounds_b = self._bounds_over_all_params(bounds_b)
         bounds = []
         for i in range(self.space.dim):
             bounds.append(min([bounds_a[2 * i], bounds_b[2 * i]]))
